@@ -181,23 +181,29 @@ def bounded_wire(tier, seed):
     import asyncio
     import httpx
     cases, fails = 0, []
-    U = _uploads()
     model_cls = type("In", (BM.BaseModel,), {"__annotations__": {"file": BM.Upload, "n": int}})
-    trees = [
-        {"a": 1}, {}, None, {"a": BM.UNSET, "b": None},
-        {"file": U[0]}, {"files": [U[0], U[1], U[0]]}, {"in": {"f": U[1], "g": [U[0], None, U[1]]}, "x": 3},
-        {"m": model_cls(file=U[2], n=1), "again": U[2]}, {"l": [model_cls(file=U[0], n=2), model_cls(file=U[1], n=3)]},
-        # uploads behind a first list element without upload; leaves that only pydantic's encoder can turn into JSON
-        {"l": [None, U[0]]}, {"items": [{"n": 1}, {"f": U[1]}]},
-        {"file": U[0], "when": datetime.datetime(2020, 1, 2, 3, 4, 5), "day": datetime.date(2020, 1, 2), "amount": decimal.Decimal("1.5")},
-        {"when": datetime.datetime(2020, 1, 2, 3, 4, 5), "ids": [uuid.UUID(int=7)]},
-    ]
-    long_trees = [{"a": 1}, {"file": U[0]}, {"text": "long value " * 600}]
+
+    def build():
+        U = _uploads()
+        trees = [
+            {"a": 1}, {}, None, {"a": BM.UNSET, "b": None},
+            {"file": U[0]}, {"files": [U[0], U[1], U[0]]}, {"in": {"f": U[1], "g": [U[0], None, U[1]]}, "x": 3},
+            {"m": model_cls(file=U[2], n=1), "again": U[2]}, {"l": [model_cls(file=U[0], n=2), model_cls(file=U[1], n=3)]},
+            # uploads behind a first list element without upload; leaves that only pydantic's encoder can turn into JSON
+            {"l": [None, U[0]]}, {"items": [{"n": 1}, {"f": U[1]}]},
+            {"file": U[0], "when": datetime.datetime(2020, 1, 2, 3, 4, 5), "day": datetime.date(2020, 1, 2), "amount": decimal.Decimal("1.5")},
+            {"when": datetime.datetime(2020, 1, 2, 3, 4, 5), "ids": [uuid.UUID(int=7)]},
+        ]
+        long_trees = [{"a": 1}, {"file": U[0]}, {"text": "long value " * 600}]
+        return U, [(QUERY_TEXT, t) for t in trees] + [(LONG_QUERY_TEXT, t) for t in long_trees]
+    U, work = build()
+    n_trees = len(work) - 3
     for m, k in CLIENTS:
         mod = importlib.import_module(DEP + m)
         cls = getattr(mod, k)
         for tracer in ((None, "t") if k.endswith("OpenTelemetry") else (None,)):
-            for text, tree in [(QUERY_TEXT, t) for t in trees] + [(LONG_QUERY_TEXT, t) for t in long_trees]:
+            for index in range(len(work)):
+                text, tree = work[index]
                 cases += 1
                 seen = []
 
@@ -217,13 +223,20 @@ def bounded_wire(tier, seed):
                     bad = _check_wire(tree, seen, client, text)
                 except Exception as e:      # noqa
                     bad = [f"raises-{type(e).__name__}: {str(e)[:120]}"]
-                for u in U:
-                    u.content.seek(0)
+                # the Upload objects are the caller's: the same file may be attached to a later call (retry, second mutation)
+                shown = None
+                if any(u.content.closed for u in U):
+                    bad = list(bad) + ["uploads-stay-usable-for-the-caller (content stream closed by the client)"]
+                    shown = str(_show(tree))[:300]
+                    U, work = build()
+                else:
+                    for u in U:
+                        u.content.seek(0)
                 if bad:
-                    fails.append(dict(inputs=dict(client=k, tracer=bool(tracer), variables=str(_show(tree))[:300], long_text=text is LONG_QUERY_TEXT), failed=bad, outcome=None))
+                    fails.append(dict(inputs=dict(client=k, tracer=bool(tracer), variables=shown or str(_show(tree))[:300], long_text=text is LONG_QUERY_TEXT), failed=bad, outcome=None))
     return dict(function=f"{DEP}base_client:BaseClient.execute", name="bounded.requests-on-the-wire",
                 kind="bounded stand-in (end-to-end through httpx.MockTransport, native)",
-                domain=f"{len(trees)} variables trees (none, UNSET, uploads nested/aliased/inside generated models) x 4 clients x tracer on/off; + a 9 kB operation text with 3 trees (incl. a 6 kB string variable)",
+                domain=f"{n_trees} variables trees (none, UNSET, uploads nested/aliased/inside generated models) x 4 clients x tracer on/off; + a 9 kB operation text with 3 trees (incl. a 6 kB string variable)",
                 cases=cases, failed=len(fails), failures=fails)
 
 
